@@ -153,25 +153,34 @@ func (g *vC10Gen) streamSize() int {
 }
 
 func (g *vC10Gen) streamHops(id uint16) []vC10Hop {
+	if g.r.Intn(100) < 5 {
+		// the Msg path of the stream transport (tcpJob.WriteMsg packs behind the frame prefix of
+		// the job's TX, or lets the library grow, then stages a copy in the drain)
+		mh := g.msgHop(id, udpJobBufSize)
+		if g.r.Intn(3) == 0 {
+			return []vC10Hop{mh, {kind: vC10HopWrite, data: g.payload(id, 2+g.r.Intn(30))}}
+		}
+		return []vC10Hop{mh}
+	}
 	switch k := g.r.Intn(100); {
 	case k < 55:
-		return []vC10Hop{{vC10HopWrite, g.payload(id, g.streamSize())}}
+		return []vC10Hop{{kind: vC10HopWrite, data: g.payload(id, g.streamSize())}}
 	case k < 70:
-		hs := []vC10Hop{{kind: vC10HopLease}, {vC10HopAppend, g.payload(id, 2+g.r.Intn(40))}}
+		hs := []vC10Hop{{kind: vC10HopLease}, {kind: vC10HopAppend, data: g.payload(id, 2+g.r.Intn(40))}}
 		if g.r.Intn(2) == 0 {
-			hs = append(hs, vC10Hop{vC10HopAppend, g.payload(id, 1+g.r.Intn(900))[1:]})
+			hs = append(hs, vC10Hop{kind: vC10HopAppend, data: g.payload(id, 1+g.r.Intn(900))[1:]})
 		}
 		return append(hs, vC10Hop{kind: vC10HopWriteLease})
 	case k < 78:
 		return nil
 	case k < 81:
-		return []vC10Hop{{vC10HopWrite, g.payload(id, g.streamSize())}, {kind: vC10HopPanic}}
+		return []vC10Hop{{kind: vC10HopWrite, data: g.payload(id, g.streamSize())}, {kind: vC10HopPanic}}
 	case k < 88:
-		return []vC10Hop{{kind: vC10HopFlush}, {vC10HopWrite, g.payload(id, g.streamSize())}}
+		return []vC10Hop{{kind: vC10HopFlush}, {kind: vC10HopWrite, data: g.payload(id, g.streamSize())}}
 	case k < 94:
-		return []vC10Hop{{vC10HopWrite, g.payload(id, g.streamSize())}, {vC10HopWrite, g.payload(id, 2+g.r.Intn(30))}}
+		return []vC10Hop{{kind: vC10HopWrite, data: g.payload(id, g.streamSize())}, {kind: vC10HopWrite, data: g.payload(id, 2+g.r.Intn(30))}}
 	default:
-		return []vC10Hop{{vC10HopWrite, g.payload(id, g.streamSize())}, {kind: vC10HopFlush}}
+		return []vC10Hop{{kind: vC10HopWrite, data: g.payload(id, g.streamSize())}, {kind: vC10HopFlush}}
 	}
 }
 
@@ -239,7 +248,7 @@ func vC10GenConn(g *vC10Gen, h *vC10ConnHandler, allowSweep, failing bool) *vC10
 		}
 		sc := &vC10Script{ok: r.Intn(14) != 0, main: g.streamHops(id)}
 		if nf >= 10 && r.Intn(4) != 0 {
-			sc = &vC10Script{ok: true, main: []vC10Hop{{vC10HopWrite, g.payload(id, 200+r.Intn(700))}}}
+			sc = &vC10Script{ok: true, main: []vC10Hop{{kind: vC10HopWrite, data: g.payload(id, 200+r.Intn(700))}}}
 		}
 		if sweep {
 			pkt = pkt[:12:12]
@@ -261,7 +270,7 @@ func vC10GenConn(g *vC10Gen, h *vC10ConnHandler, allowSweep, failing bool) *vC10
 			if i <= sweepAt {
 				staged += 2 + size
 			}
-			sc = &vC10Script{ok: true, main: []vC10Hop{{vC10HopWrite, g.payload(id, size)}}}
+			sc = &vC10Script{ok: true, main: []vC10Hop{{kind: vC10HopWrite, data: g.payload(id, size)}}}
 			kinds[fmt.Sprintf("sweep-drain%+d", sweepDelta)] = 1
 		}
 		for _, hp := range sc.main {
@@ -467,7 +476,7 @@ func (cc *vC10CorpusConn) spec(h *vC10ConnHandler) *vC10ConnSpec {
 		pkt := []byte{byte(q.ID >> 8), byte(q.ID), byte(q.Op&0xF) << 3, 0, 0, 1, 0, 0, 0, 0, 0, 0, 3, 3, 3, 3}
 		sc := &vC10Script{ok: q.Ok == nil || *q.Ok}
 		for _, raw := range q.Reply {
-			sc.main = append(sc.main, vC10Hop{vC10HopWrite, vC10CorpusPayload(q.ID, vC10CorpusSize(raw))})
+			sc.main = append(sc.main, vC10Hop{kind: vC10HopWrite, data: vC10CorpusPayload(q.ID, vC10CorpusSize(raw))})
 		}
 		cs.ids[q.ID] = true
 		h.scripts[q.ID] = sc
